@@ -453,7 +453,13 @@ func (p *pparser) pipe() stream.Stream[pv] {
 		}
 		switch t {
 		case "concat":
-			return stream.ConcatStreams(subs...)
+			// the caller re-uses its slice of streams afterwards (ConcatStreams hands it to Just, which copies): the result
+			// must still be the concatenation of the streams it was built from
+			res := stream.ConcatStreams(subs...)
+			for i := range subs {
+				subs[i] = stream.Just(pv{I: int64(7777 + i)})
+			}
+			return res
 		case "zip":
 			return stream.Map(stream.ZipN(subs...), flattenRow)
 		default:
